@@ -553,6 +553,60 @@ func sidecarConfigPush(work string, res *Result) {
 			viol("extLabels", "pushing the same configuration with other external labels changes the reported hash")
 		}
 	}
+	// two configurations with the same lines up to indentation, but a different meaning: tls_config of
+	// the job, or of the job's oauth2 block
+	const oauthX = `
+global:
+  scrape_interval: 15s
+scrape_configs:
+- job_name: job0
+  scrape_timeout: 2s
+  oauth2:
+    client_id: a
+    client_secret: b
+    token_url: http://127.0.0.1:1/token
+  tls_config:
+    insecure_skip_verify: true
+- job_name: job1
+  scrape_timeout: 2s
+`
+	oauthY := strings.Replace(oauthX, "  tls_config:\n    insecure_skip_verify: true", "    tls_config:\n      insecure_skip_verify: true", 1)
+	if hx, hy := fresh(oauthX), fresh(oauthY); !strings.HasPrefix(hx, "error") && !strings.HasPrefix(hy, "error") && hx != hy {
+		res.count("config_push_reindented_pair")
+		_ = push(rig.svc, oauthX)
+		if got := reported(); got != hx {
+			viol("reportedHash", fmt.Sprintf("after a push the sidecar reports hash %s, the coordinator computes %s for that content", got, hx))
+		}
+		_ = push(rig.svc, oauthY)
+		if got := reported(); got != hy {
+			viol("reportedHash", fmt.Sprintf("a pushed configuration that differs from the loaded one only by the indentation of a block (tls_config of the job vs. of its oauth2 settings) is acknowledged, but the sidecar reports hash %s, the coordinator computes %s: the shard never gets in sync", got, hy))
+		}
+	}
+	// what the sidecar reports as its targets does not depend on the configuration it currently runs: a
+	// shard whose configuration lacks a job (out of sync after a restart, say) still reports the targets of
+	// that job it holds - the coordinator relies on it not to assign them a second time
+	_ = push(rig.svc, sidecarCfg)
+	_ = rig.installTransports()
+	if err := rig.update([]STgt{{Hash: 5, Series: 10, Total: 10, State: 0, Job: 0}, {Hash: 6, Series: 10, Total: 10, State: 0, Job: 1}}); err == nil {
+		onlyJob0 := "global:\n  scrape_interval: 15s\nscrape_configs:\n- job_name: job0\n  scrape_timeout: 2s\n"
+		_ = push(rig.svc, onlyJob0)
+		st := map[uint64]*target.ScrapeStatus{}
+		if err := rig.get("/api/v1/shard/targets/status/", &st); err == nil {
+			if _, ok := st[6]; !ok || len(st) != 2 {
+				keys := []uint64{}
+				for k := range st {
+					keys = append(keys, k)
+				}
+				sort.Slice(keys, func(a, b int) bool { return keys[a] < keys[b] })
+				msg := fmt.Sprintf("a sidecar that holds targets 5 (job0) and 6 (job1) and is pushed a configuration without job1 reports the targets %v: the coordinator takes the missing one for unscraped and assigns it a second time", keys)
+				viol("statusFollowsConfig", msg)
+				res.ImplViol = capViol(res.ImplViol, Violation{Property: "C10", Clause: "statusFollowsConfig", Signature: "C10/statusFollowsConfig", What: msg,
+					Case: map[string]interface{}{"scenario": "configPush"}}, 8)
+			}
+		}
+		_ = push(rig.svc, sidecarCfg)
+		_ = rig.installTransports()
+	}
 	// a sidecar that reads its configuration from a file refuses pushes
 	fileSvc := sidecar.NewService("/etc/prometheus/prometheus.yml", "http://127.0.0.1:1", func() (int64, error) { return 0, nil }, rig.cfg, rig.tm, prometheus.NewRegistry(), quietLog())
 	h1 := reported()
@@ -580,7 +634,7 @@ func runSidecar(a Args) *Result {
 		work = os.TempDir()
 	}
 	_ = os.MkdirAll(work, 0755)
-	if a.replay == "" && (a.wants("C08") || a.wants("C16")) {
+	if a.replay == "" && (a.wants("C08") || a.wants("C16") || a.wants("C10")) {
 		sidecarConfigPush(work, res)
 	}
 	var cases []*SCase
